@@ -235,7 +235,7 @@ class C15(Prop):
             "(an arrival within one grid step of a deadline).")
     assumptions = ("handler execution time is zero on the virtual clock",
                    "all times are multiples of 1/8 s so that the client's float arithmetic is exact and no tolerance is needed")
-    examples = {"quick": 4000, "thorough": 100000}
+    examples = {"quick": 4000, "thorough": 250000}
 
     def strategy(self, tier):
         @st.composite
